@@ -31,6 +31,7 @@ def run(v):
         d["alpha"]["flageq"] = True
         d["alpha"]["clusters"] = False
         D.trim_to_budget(d, 3000 if q else 30000)
+    ffam += D.count_family(SEED + 8, 12 if q else 36, maxlen=3 if q else 4, budget=3000 if q else 30000)
     fcov = run_cmdline_property(v, ffam, None, signature=cmdline_sig.signature, name="C01f")
     cov = merge_cov(cov, fcov, "flag_with_value")
     cov["rule"] = ("every line over each definition's alphabet up to its maxlen, enumerated by TLC; non-trivial = "
